@@ -73,6 +73,13 @@ Proof. exact Proofs.tokens_valid_spec. Qed.
 Theorem document_lsp_range_refuted : forall (t : text), range_in_doc (line_lens t) (document_lsp_range t) = false.
 Proof. exact Proofs.document_lsp_range_refuted. Qed.
 
+(** The generic walk over ALL result kinds (verified checker): every observed range or position lies inside the
+    document with start <= end — the full statement minus the one named known class above. *)
+Theorem ranges_checked_spec : forall (t : text) (rs : list range),
+  forallb (fun r => range_in_doc (line_lens t) r || range_eqb r (document_lsp_range t)) rs = true <->
+  Forall (fun r => RangeInDoc (line_lens t) r \/ r = document_lsp_range t) rs.
+Proof. exact Proofs.ranges_checked_spec. Qed.
+
 (** non-vacuity: a comment token with a nested tag and a same-start duplicate is split around the inner token;
     the checkers accept a valid and reject an invalid instance of every kind *)
 Example build_example :
